@@ -232,7 +232,23 @@ def _rw_drop_where_bounds(text):
     return text[:m.start(1)] + '\n'.join(kept) + text[m.end(1):], 1
 
 
+def _rw_ids_values_find(text):
+    # RW32: `let result = iter.ids_and_values()<adaptor chain>;` (the statement before `if result.is_some()`) ->
+    # `let result = ids_values_find(iter);` (chunk-size-1 arm of a find kernel: one std adaptor chain, assumed, T6)
+    return re.subn(r'let result = iter\s*\.ids_and_values\(\).*?;(?=\s*if result\.is_some\(\))',
+                   'let result = ids_values_find(iter);', text, flags=re.S)
+
+
+def _rw_chunk_find(text):
+    # RW33: `let result = chunk.values.enumerate()<adaptor chain>;` (the statement before `if result.is_some()`) ->
+    # `let result = chunk_find(chunk);` (first survivor of ONE chunk with its position: assumed, T6)
+    return re.subn(r'let result = chunk\s*\.values\s*\.enumerate\(\).*?;(?=\s*if result\.is_some\(\))',
+                   'let result = chunk_find(chunk);', text, flags=re.S)
+
+
 REWRITES = {
+    'RW33': ('let result = chunk.values.enumerate()<chain>; -> let result = chunk_find(chunk); (assumption T6: first survivor of the chunk; its index arithmetic is covered by the bounded Kani task harnesses only)', _rw_chunk_find),
+    'RW32': ('let result = iter.ids_and_values()<chain>; -> let result = ids_values_find(iter); (chunk-size-1 arm of a find kernel is a single std adaptor chain: assumed, T6)', _rw_ids_values_find),
     'RW31': ('where-clause bounds on closures / IntoIterator / Fallible dropped (values only passed through to the kernels)', _rw_drop_where_bounds),
     'RW30': ('self.reserve(ARG) -> self.reserve_(ARG) (extension method stating the std contract of Vec::reserve on the capacity, which the vstd spec omits: assumed, T4; ARG verbatim)', _rw_vec_reserve),
     'RW29': ('fn f(mut self, ..) -> fn f(self, ..) { let mut this = self; .. } with self renamed to this in the body (Verus has no `mut self`)', _rw_mut_self),
